@@ -133,12 +133,16 @@ def run_family(res, pid, systems, state_fields, sys_fields, real_counts=True, ne
     res.extra["recorded_states_judged"] = res.extra.get("recorded_states_judged", 0) + nstates
     res.extra["recorded_transitions_judged"] = res.extra.get("recorded_transitions_judged", 0) + sum(
         len(r.get("edges", [])) + len(r.get("ignored", [])) for r in recs)
-    cnt = mc_systems(res, wd, systems, recs)
+    # TLC's own exploration of the spec is only meaningful as a count oracle when the recorded graph conformed: finiteness of
+    # a system is established by the recorder, and a non-conforming implementation may be finite where the spec is not
+    cnt = mc_systems(res, wd, systems, recs) if conform_ok else None
+    if not conform_ok:
+        res.notes.append("MCActorSystem skipped: recorded states do not conform, so the recorder's finiteness verdict does not carry over to the spec")
     if cnt and cnt[0] != cnt[1] and not res.violations and conform_ok:
         # TLC's exploration of the spec and the recorder's exploration of the code disagree although every
         # recorded state conformed: the recorder missed states or the spec has states the code cannot reach
         raise ToolError("state counts differ: TLC %d vs recorder %d" % cnt)
-    if net_history:
+    if net_history and conform_ok:
         small = [s for s in systems if s["max_crashes"] == 0]
         small = [dict(s, history="none") for s in small][:60 if res.tier == "quick" else 400]
         summ = {r["sys"]: r for r in recs if r.get("summary")}
